@@ -32,7 +32,7 @@ THALF = [sp.Rational(21, 2), sp.Rational(61, 2)]      # two products (hours), th
 WEIGHTS = []       # one opaque positive weight per call of the activity oracle since the list was last cleared
 
 
-def setup(ctx, rest_times, facts, activate=True, TH=None, entries=1):
+def setup(ctx, rest_times, facts, activate=True, TH=None, entries=1, zero=()):
     """A Sample whose state is whatever Sample.calculate_activation records, with activation.activity replaced by
     an oracle that returns, for each of two products, the opaque activity Act_k(T) at every time T it is asked for."""
     P = lambda n: sp.Symbol(n, positive=True)
@@ -47,7 +47,8 @@ def setup(ctx, rest_times, facts, activate=True, TH=None, entries=1):
         times = iterate(I_, bound["rest_times"])
         g = sp.Symbol(f"g{len(WEIGHTS) + 1}", positive=True)
         WEIGHTS.append(g)
-        return {r: [g * A(sp.sympify(T)) for T in times] for r, A in zip(recs, ACT)} if activate else {}
+        return {r: [(g * A(sp.sympify(T)) if k_ not in zero else sp.Integer(0)) for T in times]
+                for k_, (r, A) in enumerate(zip(recs, ACT))} if activate else {}
     w = world(ctx, stubs={"activation.activity": oracle})
     I = w.I
     I.havoc_loops = True          # an iteration to convergence inside decay_time is not followed: its results are unknowns
@@ -271,6 +272,24 @@ def run(ctx):
                       f"f after re-activation is {_s(fv2)}", site)
     ctx.floor("R1", 7); ctx.floor("R2", 7); ctx.floor("R3", 14); ctx.floor("R4", 10); ctx.floor("R5", 7)
 
+    # a product whose activity is exactly zero (a route that underflows at low fluence, e.g. Te-130 -> Te-132 by double
+    # capture): it needs no time and must not disturb the answer for the others
+    w, smp, cap, tr, ftr = setup(ctx, [sp.Integer(0), T2], [T2], zero=(1,))
+    I = w.I
+    L = [ln2 / th for th in THALF]
+    rz = raises(lambda: I.call(I.getattr(smp, "decay_time"), [target], {}))
+    ctx.check(rz is None, "R1", "a product with zero activity at removal: decay_time still answers", f"raises {rz}", site,
+              witness="Sample('TeI4', 1) at fluence 1e5: the Te-130 -> Te-132 route has activity 0.0")
+    if rz is None:
+        cap.clear()
+        I.call(I.getattr(smp, "decay_time"), [target], {})
+        if "f" in cap:
+            eq(ctx, "R4", "a product with zero activity at removal contributes nothing to f", cons(I.call(cap["f"], [t], {})),
+               sum(WEIGHTS) * A0[0] * sp.exp(-L[0] * t) - target, site)
+            init_ = cap.get("initial")
+            bad_init = init_ is None or sp.sympify(cons(init_)).has(sp.zoo, sp.nan, sp.oo, -sp.oo)
+            ctx.check(not bad_init, "R3", "the start value handed to the root finder is a finite time when a product has zero activity",
+                      f"start value {_s(init_, 120)}", site)
     # no activation: documented 0
     w, smp, cap, tr, ftr = setup(ctx, [T1], [], activate=False)
     r = w.I.call(w.I.getattr(smp, "decay_time"), [target], {})
